@@ -68,7 +68,7 @@ type layoutCase struct {
 	mtTag   string
 	mtInner bool // the MsgType field lives in the embedded struct (as in EventV6_62)
 	innerAt int  // position of the embedded struct among the outer fields
-	som     int // -1: none
+	som     int  // -1: none
 	somTag  string
 }
 
